@@ -98,6 +98,7 @@ type pathState struct {
 	funcs     map[string]int64
 	wantModel bool
 	failsAll  string
+	opaqueInts int
 	decided   map[*term]bool // conditions already implied by / added to the path condition
 }
 
